@@ -309,11 +309,20 @@ def r4_tokenisation(ctx, A):
             src = tr[-1]["snap"][0] if tr[-1]["args"][0][0] == "ref" else tr[-1]["args"][0]
             if not nx or repr(nx[-1]["result"]) not in repr(src):
                 bad.append("the trimmed text is not an element produced by the list iterator")
+        # the unit prefix: strip_prefix("bytes=") is Some(rest), or starts_with("bytes=") holds and rest = value[6..]
+        sw = [e for e in find("starts_with") if e["args"][1] == ("str", "bytes=") and o.cons.known.get(e.get("result")) == 1]
+        split_src = repr(sp[-1]["args"][0]) + repr(sp[-1]["snap"][0]) if sp else ""
+        via_starts_with = False
+        if sw and sp:
+            v0 = sw[-1]["snap"][0] if sw[-1]["args"][0][0] == "ref" else sw[-1]["args"][0]
+            while isinstance(v0, tuple) and v0 and v0[0] in ("slice_of", "&", "refconst"):
+                v0 = v0[1]
+            via_starts_with = repr(("slice", v0, const(6), None)) in split_src
         if not sp or sp[-1]["args"][1] != const(44):
             bad.append("the byte-range-set is not split at ','")
-        elif not pf or repr(pf[-1]["result"]) not in repr(sp[-1]["args"][0]) and repr(pf[-1]["result"]) not in repr(sp[-1]["snap"][0]):
+        elif not via_starts_with and (not pf or repr(pf[-1]["result"]) not in split_src):
             bad.append("the text that is split is not what follows the unit prefix")
-        if not pf or pf[-1]["args"][1] != ("str", "bytes="):
+        if not via_starts_with and (not pf or pf[-1]["args"][1] != ("str", "bytes=")):
             bad.append("the unit prefix `bytes=` is not stripped")
         if not ts:
             bad.append("the header value is not checked to be visible ASCII (to_str)")
